@@ -114,7 +114,10 @@ def history(m, seed_label, steps, with_queries, fails, params):
                 do_query(m, qrng, f.reg)
             nxt = m.multiply(cur, f.reg, uf)
         elif op in ("hadamard", "multiply"):
-            f = mk_factor(m, rng, kind, R, D); nxt = m.hadamard(cur, f.reg, uf)
+            f = mk_factor(m, rng, kind, R, D)
+            if with_queries and kind == "measure" and qrng.random() < 0.5:
+                do_query(m, qrng, f.reg)
+            nxt = m.hadamard(cur, f.reg, uf)
         elif op == "hadamard1":
             if R == 1 and rng.random() < 0.5:      # one-component measure, batched factor (broadcast of the measure)
                 f = mk_factor(m, rng, kind, int(rng.integers(2, 4)), D)
@@ -238,6 +241,8 @@ def case_single(kind, uf, cached, R1, R2, D, diag=False):
         params = dict(kind=kind, uf=uf, cached=cached, R1=R1, R2=R2, D=D, diag=diag)
         if cached:
             m.query("integral", u.reg)
+            if kind == "measure":
+                m.query("log_integral", f.reg)      # a measure used as the factor, with its own caches filled
         for op in ("multiply", "hadamard"):
             if op == "hadamard" and R1 != R2 and R2 != 1 and R1 != 1:
                 continue
@@ -269,6 +274,7 @@ def cases(seed, tier):
             out.append(case_single(kind, True, cached, 1, 2, 2))
             out.append(case_single(kind, False, cached, 2, 2, 3))
             out.append(case_single(kind, True, cached, 1, 3, 2))
+            out.append(case_single(kind, True, cached, 2, 2, 2))
         for uf in (False, True):
             out.append(case_single(kind, uf, bool(uf), 2, 2, 3, diag=True))
     for i, q in enumerate(["log_integral", "integral_light", "integrate_x", "none"]):
